@@ -69,6 +69,9 @@ func (td *TestDir) checkHash(u string, r resp) string {
 	}
 	path, err := module.UnescapePath(g[1])
 	if err != nil {
+		if r.Status != 404 {
+			return fmt.Sprintf("%q is not an escaped module path, but the response is %d %q", g[1], r.Status, clip(r.Body))
+		}
 		return ""
 	}
 	h, ext := g[2], g[3]
